@@ -44,13 +44,29 @@ def nodelist_shapes(rng, res):
     nn  = rng.randint(1, 3)
     lfs = rng.choice([0, 100])
     mem = rng.choice([0, 100])
-    nodes = [rp.Node({'index': i, 'name': 'n%d' % i,
-                      'cores': [rpc.FREE] * cpn, 'gpus': [rpc.FREE] * gpn,
-                      'lfs': lfs, 'mem': mem}) for i in range(nn)]
-    nl = rp.NodeList(nodes=nodes)
+    # NUMA aware nodes (as Pilot.nodelist builds them for platforms with a
+    # numa_domain_map): two domains splitting cores and GPUs
+    numa = cpn >= 2 and rng.random() < 0.35
+    dmap = None
+    if numa:
+        h, g = cpn // 2, gpn // 2
+        dmap = {0: rp.NumaDomain(cores=list(range(0, h)),
+                                 gpus=list(range(0, g))),
+                1: rp.NumaDomain(cores=list(range(h, cpn)),
+                                 gpus=list(range(g, gpn)))}
+
+    def mknode(i):
+        d = {'index': i, 'name': 'n%d' % i,
+             'cores': [rpc.FREE] * cpn, 'gpus': [rpc.FREE] * gpn,
+             'lfs': lfs, 'mem': mem}
+        return rp.NumaNode(d, dmap) if numa else rp.Node(d)
+
+    nl = rp.NodeList(nodes=[mknode(i) for i in range(nn)])
     nl.verify()
     case = {'cpn': cpn, 'gpn': gpn, 'nodes': nn, 'lfs': lfs, 'mem': mem,
-            'ops': []}
+            'numa': numa, 'ops': []}
+    if numa:
+        res.count('nodelist_numa_histories')
     live = list()
     for _ in range(rng.randint(4, 25)):
         if live and rng.random() < 0.35:
@@ -61,8 +77,10 @@ def nodelist_shapes(rng, res):
                 n_cores=rng.choice([1, 1, 2, cpn, cpn + 1]),
                 n_gpus=rng.choice([0, 0, 1, gpn, gpn + 1]) if gpn
                        else rng.choice([0, 0, 1]),
+                core_occupation=rng.choice([1.0, 1.0, 0.5, 0.25]),
                 gpu_occupation=rng.choice([1.0, 0.5]),
-                lfs=rng.choice([0, 30, 120]), mem=rng.choice([0, 30, 120]))
+                lfs=rng.choice([0, 30, 120]), mem=rng.choice([0, 30, 120]),
+                numa=bool(numa and rng.random() < 0.7))
         n = rng.choice([1, 2, 3, nn * cpn + 1])
         case['ops'].append(['find', rr.as_dict(), n])
         too_big = rr.n_cores > cpn or rr.n_gpus > gpn or \
@@ -83,12 +101,25 @@ def nodelist_shapes(rng, res):
             res.violation('nodelist-rank-count', '%d != %d' % (len(slots), n),
                           case)
         for s in slots:
+            if numa and rr.numa:
+                # a NUMA rank lives in one domain: its cores and GPUs
+                h, g = cpn // 2, gpn // 2
+                doms = {int(c.index >= h) for c in s.cores} | \
+                       {int(x.index >= g) for x in s.gpus}
+                res.count('nodelist_numa_slots_checked')
+                if len(doms) > 1:
+                    res.violation('nodelist-numa-rank-spans-domains',
+                                  '%s for %s' % (s.as_dict(), rr), case)
             if len({c.index for c in s.cores}) != rr.n_cores or \
                len({g.index for g in s.gpus})  != rr.n_gpus  or \
                any(abs(g.occupation - rr.gpu_occupation) > EPS
                    for g in s.gpus) or \
+               any(abs(c.occupation - rr.core_occupation) > EPS
+                   for c in s.cores) or \
                s.lfs != rr.lfs or s.mem != rr.mem or \
-               nl.nodes[s.node_index].name != s.node_name:
+               (nl.nodes[s.node_index].name != s.node_name and not
+                (numa and s.node_name.startswith(
+                                    nl.nodes[s.node_index].name + '.'))):
                 res.violation('nodelist-slot-shape', '%s for %s'
                               % (s.as_dict(), rr), case)
     return case
